@@ -364,16 +364,16 @@ def measure_rule(ctx):
 def run(ctx):
     from ..shared import group_loop_rule as _group_loop_rule
 
-    _group_loop_rule(ctx, "R8.12", scope=lambda f, _s=("EasyFEA.FEM._mesh", "EasyFEA.FEM._group_elem"): f.module.name.startswith(_s), min_instances=5)
+    ctx.attempt(_group_loop_rule, ctx, "R8.12", scope=lambda f, _s=("EasyFEA.FEM._mesh", "EasyFEA.FEM._group_elem"): f.module.name.startswith(_s), min_instances=5)
     from ..shared import state_alias_rule as _state_alias_rule
 
-    _state_alias_rule(ctx, "R8.11", scope=lambda f, _s=("EasyFEA.FEM._group_elem", "EasyFEA.FEM._mesh"): f.module.name.startswith(_s), min_instances=50)
+    ctx.attempt(_state_alias_rule, ctx, "R8.11", scope=lambda f, _s=("EasyFEA.FEM._group_elem", "EasyFEA.FEM._mesh"): f.module.name.startswith(_s), min_instances=50)
     # 'before and after the mesh is moved or mirrored': no memo of a geometric quantity survives a change of the coordinates
     from ..shared import memo_rule as _memo_rule, cached_param_rule as _cached_param_rule
 
     _scope = ("EasyFEA.FEM._group_elem", "EasyFEA.FEM._mesh", "EasyFEA.FEM.Elems")
-    _memo_rule(ctx, "R8.9", scope=lambda f: f.module.name.startswith(_scope), min_instances=0)
-    _cached_param_rule(ctx, "R8.10", min_instances=20)
+    ctx.attempt(_memo_rule, ctx, "R8.9", scope=lambda f: f.module.name.startswith(_scope), min_instances=0)
+    ctx.attempt(_cached_param_rule, ctx, "R8.10", min_instances=20)
     ctx.level = "other"
     ctx.explanation = (
         "Decided on the exact reference coordinates: every face / surface / segment row is coplanar (collinear), bounding, covers each face (edge) exactly once and the triple "
@@ -391,7 +391,7 @@ def run(ctx):
 
     indexspace.rule(ctx, "R8.6")
     candidate_order_rule(ctx)
-    inverse_map_rule(ctx, lib)
+    ctx.attempt(inverse_map_rule, ctx, lib)
 
 
 def candidate_order_rule(ctx):
